@@ -303,7 +303,7 @@ def check_after_original_died(init, hist, snap, sim0, out, viol):
                     viol("behaviour_differs_after_copy", label, f"{op} on the copy (original collected) differs from {op} on the original at {dd[:4]}", op=op.split("_")[0])
 
 
-def check_state(init, hist, do_sim, do_grad, do_xcmp=True):
+def check_state(init, hist, do_sim, do_grad, do_xcmp=True, do_views=True):
     import sys
 
     mod = sys.modules[__name__]
@@ -405,14 +405,15 @@ def check_state(init, hist, do_sim, do_grad, do_xcmp=True):
                 d = canon.diff(snap, canon.snapshot(m, with_xyzr=True))
                 viol("copy_not_independent", how, f"editing the copy with {op} changed the original at {d[:4]}", op=op.split("_")[0])
                 m = explorer.replay(mod, init, hist)  # restore for the remaining ops
-    try:
-        check_views(explorer.replay(mod, init, hist), init, hist, out, viol)
-    except Exception as e:
-        viol("view_copy_raised", "harness", f"{type(e).__name__}: {str(e)[:200]}")
-    try:
-        check_after_original_died(init, hist, snap, sim0 if sim_err is None else None, out, viol)
-    except Exception as e:
-        viol("copy_raised", "original_dead", f"{type(e).__name__}: {str(e)[:200]}")
+    if do_views:  # (thorough tier: states of depth <= 1; the depth-2 states get the module copies and the alphabet on the copies)
+        try:
+            check_views(explorer.replay(mod, init, hist), init, hist, out, viol)
+        except Exception as e:
+            viol("view_copy_raised", "harness", f"{type(e).__name__}: {str(e)[:200]}")
+        try:
+            check_after_original_died(init, hist, snap, sim0 if sim_err is None else None, out, viol)
+        except Exception as e:
+            viol("copy_raised", "original_dead", f"{type(e).__name__}: {str(e)[:200]}")
     out["sample"] = wit
     return out
 
@@ -506,7 +507,7 @@ def fresh_process(item):
 def roundtrip(item):
     res = {"violations": [], "cover": [], "refusals": [], "digests": [], "evals": 0, "transitions": 0}
     for st in item["states"]:
-        r = check_state(st["init"], st["hist"], st["sim"], st["grad"], st.get("xcmp", True))
+        r = check_state(st["init"], st["hist"], st["sim"], st["grad"], st.get("xcmp", True), st.get("views", True))
         for k in ("violations", "cover", "refusals", "digests"):
             res[k] += r[k]
         res["evals"] += r["evals"]
@@ -527,7 +528,7 @@ def explore(ctx):
         sim = ctx.tier != "quick" or len(hist) <= 1
         grad = len(hist) == 0 or (ctx.tier != "quick" and len(hist) == 1 and "train" in hist[0])
         xcmp = len(hist) == 0 if ctx.tier == "quick" else len(hist) <= 1
-        states.append({"init": init, "hist": hist, "sim": sim, "grad": grad, "xcmp": xcmp})
+        states.append({"init": init, "hist": hist, "sim": sim, "grad": grad, "xcmp": xcmp, "views": len(hist) <= 1})
     ctx.note("states_checked", len(states))
     items = [{"states": states[i:i + 2]} for i in range(0, len(states), 2)]
     ctx.map("roundtrip", items)
